@@ -97,6 +97,14 @@ func (l *Lexer) scanToken() (lexer.Token, bool, error) {
 				return l.evalToken(curr)
 			}
 
+			// Bytes that cannot be decoded do not belong to the current token either:
+			// a token that is complete is recognized first, and the error is reported when scanning resumes.
+			if !errors.Is(err, io.EOF) && curr != 0 {
+				if token, skip, terr := l.evalToken(curr); terr == nil {
+					return token, skip, nil
+				}
+			}
+
 			return lexer.Token{}, false, err
 		}
 
